@@ -192,5 +192,18 @@ CHECKS = {
           "file and partial writev are not decided; observation O1 (close()'s sleeping push vs. the non-waking consumer) is printed as a NOTE.",
   "note": "Trusted: clang 14 CFG; writev/FileObject opaque; PageAllocator opaque; the appender queue (C01/C02).",
   "technique": "static analysis: resource-flow, must-pass-through, exactly-once linking and ordering rules over CFG facts"},
+ "C05": {
+  "text": "Decides the single-winner shape of the anyflow run-time: every 'now runnable / now finished' decision is an equality test on the "
+          "result of the RMW that changed the counter, evaluated flow-sensitively (GraphVertex::ready = acq_rel fetch_sub(1) == 1; "
+          "GraphDependency::ready reports only on its own count == 0 and activates a conditional target only on == 1; "
+          "GraphDependency::activate switches on its fetch_add result and reports 'satisfied' only in cases -1/0; GraphVertex::activate "
+          "queues itself only behind the winning CAS on _activated and a zero count; closure finish/flush on == 0); who may write the "
+          "dependency counter / invoke a vertex / run a processor; invoke runs-inline | hands-to-executor(+done(-1) on refusal) | flushes, "
+          "exactly one on every path; vertex closures add one pending vertex and subtract exactly once; release notifies successors only "
+          "behind the releasing seal CAS, ready() acquires, bind counts before and rolls back exactly on a lost CAS; every field a run "
+          "writes is reset. The orderings of activate/condition-ready/target-ready are produced by the scheduler, never by the tests. The "
+          "value-level correctness of the +1/+2 protocol over all orderings and equality with a reference evaluation are not decided.",
+  "note": "Trusted: clang 14 CFG; GraphExecutor::run and processors are virtual/opaque; builder-time configuration is outside the rules.",
+  "technique": "static analysis: flow-sensitive edge-guard (equality on RMW results), exactly-once counting, who-may-call and reset-completeness rules over CFG facts"},
 }
 NOT_APPLICABLE = {("C%02d" % i): PENDING for i in range(1, 21) if ("C%02d" % i) not in CHECKS}
